@@ -115,6 +115,28 @@ def main():
             if os.path.exists(os.path.join(SEEDED, sid, "meta.json")):
                 run_one(sid, tier, props)
         return 0
+    if a[0] == "md":
+        print("| seeded change | property | what it needs to manifest | confirmed in scratch | caught by (quick tier) |")
+        print("|---|---|---|---|---|")
+        for sid in sorted(os.listdir(SEEDED)):
+            mp = os.path.join(SEEDED, sid, "meta.json")
+            if not os.path.exists(mp):
+                continue
+            meta = json.load(open(mp))
+            ch = meta.get("verified", {}).get("checks", {})
+            conf = meta.get("verified", {}).get("scratch", {}).get("confirmed")
+            res = []
+            for p_, v in sorted(ch.items()):
+                if v["exit"] == 1:
+                    res.append("%s: %s" % (p_, ", ".join(c.split(".", 1)[1] for c in v["clauses"])[:110]))
+                elif v["exit"] == 0:
+                    res.append("%s: **missed**" % p_)
+                else:
+                    res.append("%s: infra" % p_)
+            if meta.get("status", "").startswith("obsolete"):
+                res = ["obsolete (equivalent after fix da495d0; caught before it)"]
+            print("| %s | %s | %s | %s | %s |" % (sid, meta["property"], meta.get("needs_to_manifest", "").replace("|", "/")[:230], "yes" if conf else "no", "; ".join(res) or "not run"))
+        return 0
     if a[0] == "matrix":
         for sid in sorted(os.listdir(SEEDED)):
             mp = os.path.join(SEEDED, sid, "meta.json")
